@@ -132,7 +132,7 @@ func hostileInputs() []hostile {
 		{"nonobj.json", lines(`1`, `"s"`, `[]`, `null`, `{}`), nil, "JSON lines that are not objects"},
 		{"emptyobj.json", lines(`{}`, `{}`, `{}`), nil, "only empty objects: a table with zero columns"},
 		{"blankline.json", lines(`{"a":1}`, ``, `{"a":2}`, `   `, `{"a":3}`), []string{"a"}, "blank lines between objects"},
-		{"deep.json", lines(`{"a":` + strings.Repeat(`{"x":`, 150) + `1` + strings.Repeat(`}`, 150) + `}`, `{"a":` + strings.Repeat(`[`, 150) + strings.Repeat(`]`, 150) + `}`), []string{"a"}, "150-level nesting"},
+		{"deep.json", lines(`{"a":`+strings.Repeat(`{"x":`, 150)+`1`+strings.Repeat(`}`, 150)+`}`, `{"a":`+strings.Repeat(`[`, 150)+strings.Repeat(`]`, 150)+`}`), []string{"a"}, "150-level nesting"},
 		{"bignum.json", lines(`{"a":1e999}`, `{"a":-1e999}`, `{"a":-0}`, `{"a":123456789012345678901234567890}`, `{"a":0.1e-400}`, `{"a":9223372036854775808}`), []string{"a"}, "numbers beyond float64/int64"},
 		{"dupkey.json", lines(`{"a":1,"a":"x"}`, `{"a":2,"a":[1]}`), []string{"a"}, "duplicate keys in one object"},
 		{"oddkeys.json", lines(`{"":1,"a.b":2,"a b":3,"a\"b":4,"select":5,"*":6,"` + strings.Repeat("k", 300) + `":7,"é":8,"A":9,"a":10}`), []string{"a"}, "odd key names"},
